@@ -125,6 +125,8 @@ def run(ctx):
 
     for i in range(900 if thorough else 70):
         one(ca.int_weights_case(rng), "int-weights")
+    for i in range(500 if thorough else 40):
+        one(ca.int_weights_case(rng, kind=ca.KINDS[i % 4] if i % 2 else "count", scalar=True), "int-scalar-weight")
     for i in range(80 if thorough else 8):
         one(ca.max_common_case(rng), "common-at-dtype-max")
     for i in range(400 if thorough else 40):
